@@ -1318,7 +1318,19 @@ class CCodeGenerator:
                             esize = self.emit(ir.Const(esize, "esize", rhs.ty))
                             rhs = self.builder.emit_mul(rhs, esize, rhs.ty)
 
-                    value = self.builder.emit_binop(loaded, op, rhs, ir_typ)
+                    if expr.a.typ.is_pointer or rhs.ty is ir_typ:
+                        value = self.builder.emit_binop(
+                            loaded, op, rhs, ir_typ
+                        )
+                    else:
+                        # The operation happens in the type of the right
+                        # hand side (the type of 'a op b', see semantics),
+                        # the result is converted back to the type of 'a'.
+                        loaded = self.builder.emit_cast(loaded, rhs.ty)
+                        value = self.builder.emit_binop(
+                            loaded, op, rhs, rhs.ty
+                        )
+                        value = self.builder.emit_cast(value, ir_typ)
                 self._store_value(value, lhs)
         else:  # pragma: no cover
             raise NotImplementedError(str(expr.op))
